@@ -29,6 +29,8 @@ def run(ck):
         incr.crash_check(ck, d, n_scenarios=16, offsets_mode='all')       # every byte offset of 16 records
         incr.crash_check(ck, d, n_scenarios=34, offsets_mode='sample')    # ~20 offsets of 34 more
     incr.blackbox_c05(ck, d, thorough=not quick)
+    from slices import engine
+    engine.two_invocations(ck, 'C05', n_quick=10, fail_p=0.8)
     incr.flush(ck)
     vf.sh(['rm', '-rf', d])
 
